@@ -55,6 +55,19 @@ def gap_ok(gap):
     return True
 
 
+def gap_ok_none(value):
+    """no ES5 white space / line terminator inside"""
+    for c in value:
+        if c in R1.LT_CHARS:
+            return False
+        try:
+            if R1.is_ws(c):
+                return False
+        except R1.Abstain:
+            pass
+    return True
+
+
 def tkind(ttype):
     return ttype
 
@@ -75,6 +88,15 @@ def check_tokens(text, toks, bag, w):
             bag.add('C06|value-is-not-the-substring|%s' % ttype, w,
                     'token %r at %d, input has %r' % (
                         value, lexpos, text[lexpos:lexpos + len(value)]))
+            return
+        # identifier / keyword / punctuator / number tokens consist of
+        # token characters only (7.5-7.8): a "token" holding white space or
+        # a line terminator is not a faithful segmentation
+        if ttype not in ('STRING', 'REGEX', 'LINE_COMMENT', 'BLOCK_COMMENT',
+                         'LINE_TERMINATOR') and not gap_ok_none(value):
+            bag.add('C06|token-contains-layout|%s' % (
+                'word' if value[:1].isalpha() or value[:1] in '$_'
+                else ttype), w, 'token %r typed %s' % (value, ttype))
             return
         # gap
         gap = text[pos:lexpos]
@@ -207,6 +229,18 @@ def run(tier, rep):
     corpus = harvest()
     total.merge(run_texts(corpus))
     rep.space('S0', texts=len(corpus))
+    ws = [chr(c) for c in (0x9, 0xb, 0xc, 0x20, 0xa0, 0x1680, 0x2000, 0x2001,
+                           0x2002, 0x2003, 0x2004, 0x2005, 0x2006, 0x2007,
+                           0x2008, 0x2009, 0x200a, 0x202f, 0x205f, 0x3000,
+                           0xfeff, 0xa, 0xd, 0x2028, 0x2029)]
+    wtexts0 = []
+    for a in ('a', 'if', 'var', 'in', '1', ')', '\xe9', 'x1'):
+        for b in ('a', 'in', 'x', '=', '1', '(', '\xe9'):
+            for c in ws:
+                wtexts0 += [a + c + b, a + c + c + b, c + a + c]
+    total.merge(run_texts(sorted(set(wtexts0))))
+    rep.space('white-space-variety', characters=len(ws),
+              texts=len(set(wtexts0)))
     words = CH.confusable_words(R1.RESERVED)
     wtexts = []
     for w in words:
